@@ -1,0 +1,18 @@
+//go:build verif
+
+package text
+
+// Exported wrappers around the unexported key functions of the text index
+// bucket, only compiled with the verif build tag.
+
+func VerifTermKey(term string) []byte { return termKey(term) }
+
+func VerifDocumentKey(id uint64) []byte { return documentKey(id) }
+
+func VerifTermIdFromKey(key []byte) (string, bool) {
+	return (&setCacheItem{}).IdFromKey(key)
+}
+
+func VerifDocIdFromKey(key []byte) (uint64, bool) {
+	return docCacheItem{}.IdFromKey(key)
+}
